@@ -57,15 +57,18 @@ Contract clauses
                                     expectation, i.e. the rest of the options must still arrive).
 
 Input space / bound
-  quick   : date: 2 small msprime inputs (4-5 samples, <= ~25 nodes, 200 bp) x 66 option combinations
-            (all methods, every option in short and long spelling, every option at >= 2 values, pairwise mixed) ;
+  quick   : date: 2 small msprime inputs (4-5 samples, <= ~25 nodes, 200 bp) x 44 option combinations
+            (all methods, every option in short and long spelling, every option at >= 2 values, 12 random
+            mixtures; num_threads only at 1) ;
             preprocess: 2 inputs with flanks and gaps x 40 option combinations (3 minimum_gap values x every
-            boolean token for both boolean options x both spellings); 27 invalid argv; 2 subprocess runs.
+            boolean token for both boolean options x both spellings); 32 invalid argv; 2 subprocess runs.
   thorough: date: 4 inputs x the full product, per method, of the option values
             (variational_gamma: m(2) x b(2) x p(2) x rescaling-intervals(3) x max-iterations(3) x v(2) = 144;
-             discrete (x2 methods): m(2) x e(2) x b(2) x n(2) x t(3) x probability-space(3) x p(2) = 288 each);
+             discrete (x2 methods): m(2) x e(2) x b(2) x n(2) x t(2) x probability-space(3) x p(2) = 192 each,
+             plus 4 combinations with -t 2 (real process pool) on the first input, 4 with -e on variational_gamma
+             and 60 random mixtures);
             preprocess: 4 inputs x minimum_gap(4) x erase-flanks(13 tokens incl. absent) x split-disjoint(13) sampled
-            to the full 13 x 13 grid for one gap value and the diagonal for the others; 27 invalid argv x 2 inputs;
+            to the full 13 x 13 grid for one gap value and the diagonal for the others; 32 invalid argv x 2 inputs;
             6 subprocess runs.
   exhaustive = False (option NAMES are complete for both sub-commands; option VALUES are small finite sets).
 Tolerances: none.  CLI and API run the same deterministic code on the same input in the same process, so tables are
@@ -82,6 +85,7 @@ import shutil
 import subprocess
 import sys
 import tempfile
+import time
 import warnings
 
 import numpy as np
@@ -116,6 +120,7 @@ class Combo:
 
     def __init__(self, method, opts, progress=False, verbosity=0, long=False):
         self.method, self.opts, self.progress, self.verbosity, self.long = method, dict(opts), progress, verbosity, long
+        self.first_input_only = False
 
     @property
     def eff_method(self):
@@ -180,7 +185,7 @@ def date_combos(tier, rng):
                            long=True))
             C.append(Combo(meth, {"mutation_rate": m, "population_size": "100", "min_branch_length": "1e-2"},
                            progress=True, verbosity=2))
-        C.append(Combo("inside_outside", {"mutation_rate": m, "population_size": "100", "num_threads": "2"}))
+        # (-t 2 starts a process pool, ~5 s per run under NUMBA_DISABLE_JIT: thorough tier only)
         # -e given with variational_gamma (known defect clause) mixed with other options
         C.append(Combo(None, {"mutation_rate": m, "eps": "1e-3"}))
         C.append(Combo("variational_gamma", {"mutation_rate": m, "eps": "0.5", "max_iterations": "2"}, long=True))
@@ -195,15 +200,19 @@ def date_combos(tier, rng):
         C.append(Combo(None if v else "variational_gamma", {k: x for k, x in o.items() if x is not None}, progress=p,
                        verbosity=v, long=bool(v)))
     dvals = {"mutation_rate": ["5e-4", "0.001"], "eps": [None, "1e-3"], "min_branch_length": [None, "0.5"],
-             "population_size": ["100", "37.5"], "num_threads": [None, "1", "2"],
+             "population_size": ["100", "37.5"], "num_threads": [None, "1"],
              "probability_space": [None, "linear", "logarithmic"], "progress": [False, True]}
     for meth in DISC:
         for mr, e, b, n, t, ps, p in itertools.product(*dvals.values()):
-            if t == "2" and not (e is None and b is None and p is False):
-                continue  # process pools are slow: -t 2 only on the m x n x probability-space sub-grid
             o = {"mutation_rate": mr, "eps": e, "min_branch_length": b, "population_size": n, "num_threads": t,
                  "probability_space": ps}
             C.append(Combo(meth, {k: x for k, x in o.items() if x is not None}, progress=p, long=(ps == "linear")))
+    # -t 2 starts a real process pool (~5 s per run): 4 combinations, first input only
+    for meth, ps in itertools.product(DISC, (None, "linear")):
+        o = {"mutation_rate": "5e-4", "population_size": "100", "num_threads": "2", "probability_space": ps}
+        c = Combo(meth, {k: x for k, x in o.items() if x is not None})
+        c.first_input_only = True
+        C.append(c)
     for e in ("1e-3", "0.5"):
         C.append(Combo(None, {"mutation_rate": "5e-4", "eps": e}))
         C.append(Combo("variational_gamma", {"mutation_rate": "5e-4", "eps": e, "max_iterations": "2"}, long=True))
@@ -463,12 +472,15 @@ def run(req, rep):
                 procs.append(p)
                 sub_specs.append((valid, argv, o, p))
 
+        t_sec = [time.time()]
         # ---- date: output equality + spy
         combos = date_combos(tier, rng)
         n_date = 0
         for iname, ts in dins:
             ts_file = tskit.load(paths[iname])
             for c in combos:
+                if c.first_input_only and iname != dins[0][0]:
+                    continue
                 out = new_out()
                 argv = c.argv(paths[iname], out)
                 seen = {}
@@ -544,6 +556,7 @@ def run(req, rep):
                 if os.path.exists(out):
                     os.remove(out)
 
+        t_sec.append(time.time())
         # ---- preprocess: output equality + spy
         pcombos = preprocess_combos(tier)
         n_pre = 0
@@ -597,6 +610,7 @@ def run(req, rep):
                 if os.path.exists(out):
                     os.remove(out)
 
+        t_sec.append(time.time())
         # ---- invalid combinations
         n_inv = 0
         for iname, ts in (dins[:1] if tier == "quick" else dins[:2]):
@@ -614,6 +628,7 @@ def run(req, rep):
                 if exists:
                     os.remove(out)
 
+        t_sec.append(time.time())
         # ---- collect subprocesses
         for valid, argv, o, p in sub_specs:
             try:
@@ -646,6 +661,9 @@ def run(req, rep):
                      f"{len(pins)} inputs x {len(pcombos)} combinations = {n_pre} runs ({len(distinct_outputs)} distinct "
                      f"output shapes); {n_inv} invalid argv; {len(sub_specs)} subprocess runs")
         rep.exhaustive = False
+        t_sec.append(time.time())
+        rep.notes.append("seconds per section (date, preprocess, invalid, subprocess wait): "
+                         + str([round(b - a, 1) for a, b in zip(t_sec, t_sec[1:])]))
     finally:
         tsdate.date, tsdate.preprocess_ts = real_date, real_pre
         for p in procs:
